@@ -105,6 +105,10 @@ func (m *manager) Run() (err error) {
 			var poll Poll
 			poll, err = openPoll()
 			if err != nil {
+				// the deferred Close only knows the old set: stop the pollers opened by this call
+				for i := len(m.polls); i < idx; i++ {
+					_ = polls[i].Close()
+				}
 				return err
 			}
 			polls[idx] = poll
